@@ -2,6 +2,7 @@ import ScriggoV.Lemmas.LexerPosCode
 import ScriggoV.Lemmas.PositionSpec
 import ScriggoV.Lemmas.LexAdvance
 import ScriggoV.Gen.LexAdvance
+import ScriggoV.Lemmas.ErrorPaths
 import ScriggoV.Props.C04
 /-! # C21 — build errors point at a real location in the reported file
 
@@ -35,6 +36,12 @@ that move `p`, `l.column`, `l.line`):
                              exception is the CR after LF (`lfcr_segment_refuted`, known finding);
 * `rune_steps_not_newline`   a rune stepped over as a whole does not start with a newline;
 * `quote_values`             `quote` is only ever 0, `"` or `'`.
+Over the stores of file names *extracted from internal/compiler* (`Gen/ErrorPaths`):
+* `error_paths_from_loader`  no `path` field of the checker, the scopes, the builder or an error type (and no
+                             argument flowing into one) takes the path as written in a statement node — every
+                             name is one the loader produced (exception `cycle_error_path_is_written`, known finding);
+* `checker_path_is_checked_tree`  the extends-swap loop of `typecheck()` over any chain of extends nodes leaves
+                             `tc.path` equal to the path of the tree that is checked, a loaded name of the chain.
 The specification in closed form: `lineCol_spec` (line = 1 + newlines before the offset, column = 1 +
 characters since the last newline), and `token_lines_count_newlines`.
 Covered by the correspondence harness and the Go oracles only: `lexCode` and its literal lexers
@@ -305,5 +312,69 @@ example : (match scanTemplate C04.asciiUnicode FormatHTML false sample with
 example : lineCol sample 17 = (3, 5) := by decide +kernel
 
 example : allTokPos sample (scanTemplate C04.asciiUnicode FormatHTML false sample) = true := by decide +kernel
+
+/-! ## The file name of a build error is a name the loader produced
+
+Over `Gen/ErrorPaths` (regenerated from internal/compiler on every check): every store into a `path`
+field of the checker, the scopes, the function builder and the error types, into a tree's `Path`, and
+every argument that flows into one, with the kind of expression stored. -/
+section ErrorPaths
+open ScriggoV.Gen.ErrorPaths ScriggoV.Model.ErrorPaths
+
+/-- No store of a file name takes the path AS WRITTEN in a statement node (`extends.Path`, `n.Path`),
+with one exception: the `CycleError` of `ParseProgram` (known finding import-cycle-path-is-package,
+`cycle_error_path_is_written`). Every other name is a tree's `Path`, the result of `rooted`, a
+parameter (whose arguments are rows of the same table), another stored name, a literal or a name from
+a directory listing. -/
+theorem error_paths_from_loader :
+    ∀ s ∈ sites, s.owner ≠ .cycleError → Site.fromLoader s = true := by
+  have h : sites.all (fun s => s.owner == .cycleError || Site.fromLoader s) = true := by decide
+  intro s hs hne
+  have := List.all_eq_true.mp h s hs
+  simp only [Bool.or_eq_true, beq_iff_eq] at this
+  exact this.resolve_left hne
+
+/-- the names the type checker, its scopes and the function builders hold: never a written path -/
+theorem checker_scopes_builder_paths_from_loader :
+    ∀ s ∈ sites, (s.owner = .checker ∨ s.owner = .scopes ∨ s.owner = .builder) → s.src ≠ .nodePath := by
+  intro s hs ho hn
+  have hne : s.owner ≠ .cycleError := by
+    rcases ho with h | h | h <;> (rw [h]; decide)
+  have := error_paths_from_loader s hs hne
+  simp [Site.fromLoader, Src.written, hn] at this
+
+/-- the full statement (no exception) is false of the code today: the import-cycle error of a
+program stores the import path of a node -/
+def ErrorPathsFullStatement : Prop := ∀ s ∈ sites, Site.fromLoader s = true
+
+theorem cycle_error_path_is_written : ¬ ErrorPathsFullStatement := by
+  intro h
+  have hx : sites.any (fun s => !Site.fromLoader s) = true := by decide
+  obtain ⟨s, hs, hb⟩ := List.any_eq_true.mp hx
+  rw [h s hs] at hb
+  exact absurd hb (by decide)
+
+/-- The loop of `typecheck()` that swaps a template with the file it extends, with the two stores as
+extracted from checker.go: for every chain of extends nodes (whatever the paths as written), the path the
+checker reports its errors with is the path of the tree it checks, and it is the loaded name of a file of the
+chain — never a path as written. -/
+theorem checker_path_is_checked_tree (chain : List Ext) (st st' : Model.ErrorPaths.St)
+    (h : swapLoop typecheckTreePathSrc typecheckTcPathSrc chain st = some st')
+    (h0 : st.tcPath = st.treePath) :
+    st'.tcPath = st'.treePath ∧ (chain ≠ [] → ∃ e ∈ chain, st'.tcPath = e.loaded) :=
+  swapLoop_treePath chain st st' h h0
+
+/-- non-vacuity: the table has the stores of the checker (among them `tc.path = …` in typecheck), of the
+scopes and of the builder; and the loop runs on a chain whose written paths differ from the loaded names -/
+example : (sites.filter (fun s => s.owner == .checker)).length ≥ 10 ∧
+    (sites.filter (fun s => s.owner == .scopes)).length ≥ 2 ∧
+    (sites.filter (fun s => s.owner == .builder)).length ≥ 6 ∧
+    (sites.filter (fun s => s.sink == .treeField)).length ≥ 3 ∧ sites.length ≥ 50 := by decide
+
+example : (swapLoop typecheckTreePathSrc typecheckTcPathSrc
+    [⟨"base.html", "layouts/base.html"⟩, ⟨"/root.html", "root.html"⟩] ⟨"layouts/page.html", "layouts/page.html"⟩).map
+      (fun s => (s.treePath, s.tcPath)) = some ("root.html", "root.html") := rfl
+
+end ErrorPaths
 
 end ScriggoV.Props.C21
